@@ -84,6 +84,15 @@ def build_exchange(cfg: dict, pj: Proj, max_concurrent: int = 1):
         q = next(iter(qsyms))
         fee = fees.Percentage(Decimal(cfg["feeN"]) * 100 / Decimal(cfg["feeD"]),
                               min_fee=Decimal(cfg["minFeeN"]) / Decimal(cfg["minFeeD"]) / (Decimal(10) ** pj.lift[q]))
+    elif cfg["feeMode"] == "base":
+        # a user-defined strategy (the FeeStrategy extension point): a share of the traded base amount, in the base symbol
+        class BaseFee(fees.FeeStrategy):
+            def calculate_fees(self, order, balance_updates):
+                base = balance_updates.get(order.pair.base_symbol)
+                if not base:
+                    return {}
+                return {order.pair.base_symbol: -abs(base) * Decimal(cfg["feeN"]) / Decimal(cfg["feeD"])}
+        fee = BaseFee()
     else:
         fee = fees.NoFee()
     if cfg["liqMode"] == "inf":
@@ -159,12 +168,13 @@ async def observe(ex, cfg, pj: Proj, order_ids: List[str], loan_index: Dict[str,
         b, q = pr["b"], pr["q"]
         filled = pj.units(b, o.amount_filled, "amount_filled")
         remaining = pj.units(b, o.amount_remaining, "amount_remaining")
-        fee_other = [s for s in o.fees if s != q]
+        fee_other = [s for s in o.fees if s != (b if cfg["feeMode"] == "base" else q)]
         orders.append({
             "state": "open" if o.is_open else ("completed" if remaining == 0 else "canceled"),
             "filled": filled, "remaining": remaining,
             "qfilled": pj.units(q, o.quote_amount_filled, "quote_amount_filled"),
             "fee": pj.units(q, o.fees.get(q, Decimal(0)), "fee"),
+            "feeB": pj.units(b, o.fees.get(b, Decimal(0)), "fee_base") if b != q else 0,
             "feeOther": bool(fee_other),
             "amountOk": pj.units(b, o.amount, "amount") == m["amount"],
             "loans": sorted(loan_index[l] for l in o.loan_ids if l in loan_index),
